@@ -47,8 +47,8 @@ type Violation struct {
 	Property string   `json:"property"`
 	Monitor  string   `json:"monitor"`
 	Msg      string   `json:"msg"`
-	Line     int      `json:"line"`    // 0-based index into the component's .in file
-	History  []string `json:"history"` // input lines from the start of the history to the failing line
+	Line     int      `json:"line"`              // 0-based index into the component's .in file
+	History  []string `json:"history"`           // input lines from the start of the history to the failing line
 	Finding  string   `json:"finding,omitempty"` // id of a known-findings predicate that recognises it
 }
 
@@ -110,7 +110,7 @@ func (o *Out) ViolateF(prop, monitor, msg, finding string) {
 	o.Violations = append(o.Violations, Violation{Property: prop, Monitor: monitor, Msg: msg, Line: o.lines - 1, History: h, Finding: finding})
 }
 
-func (o *Out) Count(k string) { o.Stats[k]++ }
+func (o *Out) Count(k string)         { o.Stats[k]++ }
 func (o *Out) CountN(k string, n int) { o.Stats[k] += n }
 
 // Mark records a distinct non-trivial case for a property (key = canonical form).
